@@ -4,6 +4,7 @@ import (
 	"go/ast"
 	"go/token"
 	"go/types"
+	"os"
 )
 
 // singleDef returns the expression a local variable is defined with when the variable is assigned exactly once in the
@@ -206,7 +207,7 @@ func isModuleInitFunc(info *types.Info, body ast.Node, e ast.Expr) bool {
 	if !ok || len(call.Args) == 0 {
 		return false
 	}
-	if fn := Callee(info, call); fn == nil || fn.Name() != "NewFunc" {
+	if fn := Callee(info, call); fn == nil || !nameIs(fn, "NewFunc") {
 		return false
 	}
 	id, ok := ast.Unparen(call.Args[0]).(*ast.Ident)
@@ -217,6 +218,118 @@ func isModuleInitFunc(info *types.Info, body ast.Node, e ast.Expr) bool {
 	if src == nil || idx != 0 {
 		return false
 	}
+	// the function that yields the (init, dispose) names: takes a *ast.Module, returns two strings (whatever it is called)
 	fn := Callee(info, src)
-	return fn != nil && fn.Name() == "getModuleInitDisposeName"
+	if fn == nil {
+		return false
+	}
+	sig, ok := fn.Type().(*types.Signature)
+	if !ok || sig.Results().Len() != 2 || sig.Params().Len() != 1 {
+		return false
+	}
+	p, isPtr := sig.Params().At(0).Type().(*types.Pointer)
+	return isPtr && hasSuffix(p.Elem().String(), "/src/ast.Module")
+}
+
+// normSrc renders an expression for use in obligation keys and reviewed tables: identifiers of local variables,
+// parameters and receivers are replaced by their static type, so that renaming a local does not change the key.
+func normSrc(L *Loaded, info *types.Info, e ast.Expr) string {
+	short := func(t types.Type) string {
+		return types.TypeString(t, func(p *types.Package) string { return p.Name() })
+	}
+	var w func(e ast.Expr) string
+	w = func(e ast.Expr) string {
+		switch x := e.(type) {
+		case *ast.Ident:
+			o := info.Uses[x]
+			if o == nil {
+				o = info.Defs[x]
+			}
+			if v, ok := o.(*types.Var); ok && !v.IsField() && v.Pkg() != nil && v.Parent() != v.Pkg().Scope() {
+				return "‹" + short(v.Type()) + "›"
+			}
+			return x.Name
+		case *ast.SelectorExpr:
+			return w(x.X) + "." + x.Sel.Name
+		case *ast.ParenExpr:
+			return "(" + w(x.X) + ")"
+		case *ast.StarExpr:
+			return "*" + w(x.X)
+		case *ast.UnaryExpr:
+			return x.Op.String() + w(x.X)
+		case *ast.BinaryExpr:
+			return w(x.X) + " " + x.Op.String() + " " + w(x.Y)
+		case *ast.IndexExpr:
+			return w(x.X) + "[" + w(x.Index) + "]"
+		case *ast.TypeAssertExpr:
+			if x.Type == nil {
+				return w(x.X) + ".(type)"
+			}
+			return w(x.X) + ".(" + L.Src(x.Type) + ")"
+		case *ast.CallExpr:
+			s := w(x.Fun) + "("
+			for i, a := range x.Args {
+				if i > 0 {
+					s += ", "
+				}
+				s += w(a)
+			}
+			return s + ")"
+		}
+		return L.Src(e)
+	}
+	return w(e)
+}
+
+// renamedObjs: functions, methods and struct fields of the repository that were recognised as pure renames of a name in
+// the reference table (golden/names.json): object -> the name the rules and models know it by. Filled by Load.
+var renamedObjs = map[types.Object]string{}
+
+// nameIs compares an object's name with a name used in a rule, looking through recognised renames.
+func nameIs(o interface{ Name() string }, want string) bool {
+	if obj, ok := o.(types.Object); ok && len(renamedObjs) > 0 {
+		switch x := obj.(type) {
+		case *types.Func:
+			obj = x.Origin()
+		case *types.Var:
+			obj = x.Origin()
+		}
+		if old, ok := renamedObjs[obj]; ok {
+			return old == want
+		}
+	}
+	return o.Name() == want
+}
+
+// canonName: the name the rules know the object by.
+func canonName(obj types.Object) string {
+	if obj == nil {
+		return ""
+	}
+	switch x := obj.(type) {
+	case *types.Func:
+		obj = x.Origin()
+	case *types.Var:
+		obj = x.Origin()
+	}
+	if old, ok := renamedObjs[obj]; ok {
+		return old
+	}
+	return obj.Name()
+}
+
+// verifHome: where the checker's own committed tables live (golden/...), independent of where evidence is written.
+func verifHome() string {
+	if h := os.Getenv("VERIF_HOME"); h != "" {
+		return h
+	}
+	return "/verif"
+}
+
+// selName: the name a selector's field is known by (recognised renames looked through).
+func selName(info *types.Info, x *ast.SelectorExpr) string {
+	if v, ok := info.Uses[x.Sel].(*types.Var); ok && v.IsField() {
+		return canonName(v)
+	}
+	return x.Sel.Name
 }
